@@ -15,8 +15,8 @@ from vf.worker import exc_sig
 
 LEVEL = "exploration"
 RULE = ("complete enumeration of the window: 1-D arrays n=1..4 and 2-D arrays up to 3x3, every subscript in "
-        "-2..n+2, every slice a:b and a:s:b (s in 1,2) with bounds in -2..n+3, loop ranges and index "
-        "arithmetic, subscripts on scalars, in 12 contexts; thorough adds component arrays and expression "
+        "-2..n+2, every slice a:b and a:s:b (s in 1,2,-1,-2) with bounds in -2..n+3, loop ranges and index "
+        "arithmetic (1-D, and either subscript of a matrix), subscripts on scalars, in 12 contexts; thorough adds component arrays and expression "
         "subscripts; distinct = digest of model text; non-trivial = every case (each is a distinct subscript/"
         "context combination)")
 ASSUMPTIONS = ["an empty Modelica range (a > b) is legitimately empty, not out of range",
